@@ -123,6 +123,43 @@ Section Generic.
     intros H n Hn. inversion H; subst. destruct (act_marked b); [apply act_has_mark; exact Hn|reflexivity].
   Qed.
 
+  (* a step of a path walk evaluates the references it meets in a set of its own: afterwards no
+     name it registered is active, so a getter's walk leaves nothing behind for what it finds *)
+  Lemma path_step_restores fl a elem r a' :
+    get_field_dyn dv fuel0 fl a elem = Ok (r, a') -> forall n, n <> cyc_marker -> act_has n a' = act_has n a.
+  Proof.
+    unfold get_field_dyn. destruct (to_cfg_dyn dv fuel0 a elem) as [[c a0]| | |]; cbn [bind]; try discriminate.
+    intros H n Hn.
+    assert (a' = if act_marked a0 then act_mark a else a) as E.
+    { destruct c as [cl|].
+      - destruct (get_field fl (l_path cl) (l_val cl)) as [[[pp v]|]|e p| |]; inversion H; reflexivity.
+      - destruct fl as [nm|i]; [|destruct i]; inversion H; reflexivity. }
+    subst a'. destruct (act_marked a0); [apply act_has_mark; exact Hn|reflexivity].
+  Qed.
+
+  Lemma path_walk_restores : forall fs a cur r a',
+    get_path_dyn dv fuel0 fs a cur = Ok (r, a') -> forall n, n <> cyc_marker -> act_has n a' = act_has n a.
+  Proof.
+    induction fs as [|fl rest IH]; intros a cur r a' H n Hn.
+    - inversion H. reflexivity.
+    - destruct rest as [|f2 rest'].
+      + cbn [get_path_dyn] in H.
+        destruct (get_field_dyn dv fuel0 fl a cur) as [[r1 a1]| | |] eqn:E; cbn [bind fst snd] in H; try discriminate.
+        assert (a' = a1) as Ea by (destruct r1 as [x|e p| |]; inversion H; reflexivity). subst a'.
+        exact (path_step_restores fl a cur r1 a1 E n Hn).
+      + change (get_path_dyn dv fuel0 (fl :: f2 :: rest') a cur)
+          with (x <- get_field_dyn dv fuel0 fl a cur ;;
+                match fst x with
+                | Ok (Some nxt) => get_path_dyn dv fuel0 (f2 :: rest') (snd x) nxt
+                | Ok None => Ok (Err EMissing "", snd x)
+                | r => Ok (r, snd x)
+                end) in H.
+        destruct (get_field_dyn dv fuel0 fl a cur) as [[r1 a1]| | |] eqn:E; cbn [bind fst snd] in H; try discriminate.
+        pose proof (path_step_restores fl a cur r1 a1 E n Hn) as S1.
+        destruct r1 as [[nxt|]|e p| |]; try (inversion H; subst; exact S1).
+        rewrite (IH a1 nxt r a' H n Hn). exact S1.
+  Qed.
+
   (* literal text and escapes evaluate to themselves *)
   Lemma eval_const root a s : eval_exp o dv fuel0 (EConst s) root a = Ok (s, a).
   Proof. reflexivity. Qed.
